@@ -9,16 +9,17 @@ import (
 )
 
 type sgen struct {
-	r     *util.Rng
-	b     strings.Builder
-	ctr   int
-	nconn int
-	live  []string // cids believed open
-	dead  []string // cids that were closed: their handles are stale
-	et    bool
-	rbc   int
-	hist  map[string]int
-	big   bool
+	r      *util.Rng
+	b      strings.Builder
+	ctr    int
+	nconn  int
+	live   []string // cids believed open
+	dead   []string // cids that were closed: their handles are stale
+	et     bool
+	rbc    int
+	hist   map[string]int
+	big    bool
+	hasDup bool // some handler program of this case keeps a duplicate of a descriptor
 }
 
 func (g *sgen) emit(s string) {
@@ -60,6 +61,7 @@ func (g *sgen) trafficProg() string {
 		case 5:
 			if g.r.Intn(3) == 0 { // the user takes a duplicate of the descriptor and keeps it beyond the connection's life
 				hops = append(hops, "dup")
+				g.hasDup = true
 			} else {
 				hops = append(hops, "inbuf", "outbuf")
 			}
@@ -137,7 +139,7 @@ func (g *sgen) connect() {
 
 func (g *sgen) stream(id int, faults bool) {
 	fmt.Fprintf(&g.b, "case %d\n", id)
-	g.nconn, g.live, g.dead = 0, nil, nil
+	g.nconn, g.live, g.dead, g.hasDup = 0, nil, nil, false
 	g.big = id%10 == 9
 	mode := g.r.Pick(0, 0, 1, 2)
 	chunk := 0
